@@ -317,11 +317,16 @@ class TBRMatchedMarkets:
     treatment_share_range = self.parameters.treatment_share_range
     budget_range = self.parameters.budget_range
 
+    results = heapdict.HeapDict(size=self.parameters.n_designs)
+
+    if not self.treatment_group_size_range():
+      # No admissible treatment group size: there are no feasible designs.
+      self._search_results = results
+      return self.search_results()
+
     # Do not store patterns when we have the last treatment pattern size.
     skip_this_trt_group_size = list(self.treatment_group_size_range()).pop()
     skip_treatment_geo_patterns = []
-
-    results = heapdict.HeapDict(size=self.parameters.n_designs)
 
     def skip_if_subset(geos: Set[GeoIndex]) -> bool:
       """Check if one of the stored geo patterns is a subset of the geos.
